@@ -77,9 +77,18 @@ func genC04(r *Rng, tier string) *C04Case {
 	if r.Chance(0.4) {
 		incArgs = []string{`"inc0.html"`, `"inc1.html"`}
 		cs.Inc = map[string][]*TNode{}
-		for _, n := range []string{"inc0.html", "inc1.html"} {
+		names := []string{"inc0.html", "inc1.html"}
+		chain := r.Chance(0.4) // inc0 -> inc1 -> inc2 -> inc3: include depth 4
+		if chain {
+			names = append(names, "inc2.html", "inc3.html")
+		}
+		for i, n := range names {
 			ig := NewGen(r.Fork(strSeed(n)), r.Range(2, 10))
-			cs.Inc[n] = ig.Template(cs.Envs[0])
+			t := ig.Template(cs.Envs[0])
+			if chain && i+1 < len(names) {
+				t = append(t, &TNode{K: "tag", S: "include " + quote(names[i+1])})
+			}
+			cs.Inc[n] = t
 		}
 	}
 	nt := r.Range(3, 8)
